@@ -1,10 +1,258 @@
-"""witness search for failed Verus obligations (DESIGN 3.5): never decides anything, only tries to produce a runnable failing input"""
+"""Witness search for failed obligations (DESIGN 3.5).  It never decides anything: the failed obligation is the violation; this
+module only tries to attach a concrete failing input that reproduces against the REAL crate.
+
+* Verus obligations of single-source operator units: the real operator is run natively on every script over {0,1,2} of length <= 4
+  x {complete, error, silent} x parameters 0..3 and compared with an executable transcription of the unit's definition (REFS below);
+  the first disagreement becomes a stand-alone failing test (replay file `witness`).
+* Kani obligations: the failed harness is re-run natively against the real crate (tools/nativereplay.py).
+"""
+import itertools
+import json
+import os
+import re
+import shutil
+import subprocess
+import sys
+
+VERIF = os.path.dirname(os.path.dirname(os.path.abspath(__file__)))
+
+EVEN = lambda x: x % 2 == 0
+
+
+def fin(items, end):
+    return items + ([('C',)] if end == 'C' else [('E',)] if end == 'E' else [])
+
+
+def N(xs):
+    return [('N', x) for x in xs]
+
+
+def r_take(xs, end, p):
+    if p == 0:
+        return None   # outside the contract's domain (count >= 1); see DESIGN 9
+    if len(xs) >= p:
+        return N(xs[:p]) + [('C',)]
+    return fin(N(xs), end)
+
+
+def r_take_while(xs, end, p):
+    out = []
+    for x in xs:
+        if EVEN(x):
+            out.append(('N', x))
+        else:
+            return out + [('C',)]
+    return fin(out, end)
+
+
+def r_skip_while(xs, end, p):
+    k = next((i for i, x in enumerate(xs) if not EVEN(x)), len(xs))
+    return fin(N(xs[k:]), end)
+
+
+def r_distinct(xs, end, p):
+    out = [x for i, x in enumerate(xs) if i == 0 or xs[i - 1] != x]
+    return fin(N(out), end)
+
+
+def fold(xs):
+    acc = xs[0]
+    for x in xs[1:]:
+        acc = acc * 3 + x
+    return acc
+
+
+def r_scan(xs, end, p):
+    return fin(N([fold(xs[:i + 1]) for i in range(len(xs))]), end)
+
+
+def on_complete(value_fn):
+    def f(xs, end, p):
+        if end == 'C':
+            v = value_fn(xs, p)
+            return (N([v]) if v is not None else []) + [('C',)]
+        return fin([], end)
+    return f
+
+
+def r_contains(xs, end, p):
+    if p in xs:
+        return [('N', True), ('C',)]
+    if end in ('C', 'E'):
+        return [('N', False), ('C',)]
+    return []
+
+
+def r_all(xs, end, p):
+    if any(not EVEN(x) for x in xs):
+        return [('N', False), ('C',)]
+    if end == 'C':
+        return [('N', True), ('C',)]
+    return fin([], end)
+
+
+def r_default_if_empty(xs, end, p):
+    if end == 'C' and not xs:
+        return [('N', 99), ('C',)]
+    return fin(N(xs), end)
+
+
+def r_take_last(xs, end, p):
+    if end == 'C':
+        return N(xs[len(xs) - p:] if p <= len(xs) else xs) + [('C',)] if p > 0 else [('C',)]
+    return fin([], end)
+
+
+def r_first(xs, end, p):
+    return N(xs[:1]) + [('C',)] if xs else fin([], end)
+
+
+def r_last(xs, end, p):
+    if end == 'C':
+        return N(xs[-1:]) + [('C',)]
+    return fin([], end)
+
+
+# unit -> (rust expression over `src`, parameter values, reference)
+REFS = {
+    'take': ('src.take(P)', [1, 2, 3], r_take),
+    'skip': ('src.skip(P)', [0, 1, 2, 3], lambda xs, end, p: fin(N(xs[p:]), end)),
+    'skip_last': ('src.skip_last(P)', [0, 1, 2, 3], lambda xs, end, p: fin(N(xs[:max(0, len(xs) - p)]), end)),
+    'take_last': ('src.take_last(P)', [0, 1, 2, 3], r_take_last),
+    'filter': ('src.filter(|x| x % 2 == 0)', [0], lambda xs, end, p: fin(N([x for x in xs if EVEN(x)]), end)),
+    'map': ('src.map(|x| x + 10)', [0], lambda xs, end, p: fin(N([x + 10 for x in xs]), end)),
+    'take_while': ('src.take_while(|x| x % 2 == 0)', [0], r_take_while),
+    'skip_while': ('src.skip_while(|x| x % 2 == 0)', [0], r_skip_while),
+    'distinct_until_changed': ('src.distinct_until_changed()', [0], r_distinct),
+    'ignore_elements': ('src.ignore_elements()', [0], lambda xs, end, p: fin([], end)),
+    'scan': ('src.scan(|a, b| a * 3 + b)', [0], r_scan),
+    'reduce': ('src.reduce(|a, b| a * 3 + b)', [0], on_complete(lambda xs, p: fold(xs) if xs else None)),
+    'count': ('src.count().map(|x| x as i64)', [0], on_complete(lambda xs, p: len(xs))),
+    'sum': ('src.sum()', [0], on_complete(lambda xs, p: sum(xs) if xs else None)),
+    'min': ('src.min()', [0], on_complete(lambda xs, p: min(xs) if xs else None)),
+    'max': ('src.max()', [0], on_complete(lambda xs, p: max(xs) if xs else None)),
+    'contains': ('src.contains(P as i64).map(|b| b as i64)', [0, 1, 2], lambda xs, end, p: [(e[0], int(e[1])) if e[0] == 'N' else e for e in r_contains(xs, end, p)]),
+    'all': ('src.all(|x| x % 2 == 0).map(|b| b as i64)', [0], lambda xs, end, p: [(e[0], int(e[1])) if e[0] == 'N' else e for e in r_all(xs, end, p)]),
+    'default_if_empty': ('src.default_if_empty(99)', [0], r_default_if_empty),
+    'first': ('src.first()', [0], r_first),
+    'last': ('src.last()', [0], r_last),
+    'tap': ('src.tap(|_| {}, |_| {}, || {})', [0], lambda xs, end, p: fin(N(xs), end)),
+}
+
+DRIVER = '''
+use another_rxrust::prelude::*;
+use std::sync::{Arc, Mutex};
+
+fn run(xs: Vec<i64>, end: u8, p: usize) -> String {
+  let log = Arc::new(Mutex::new(Vec::<String>::new()));
+  let (l1, l2, l3) = (log.clone(), log.clone(), log.clone());
+  let items = xs.clone();
+  let src: Observable<'static, i64> = Observable::create(move |s| {
+    for x in items.iter() { s.next(*x); }
+    match end { 0 => s.complete(), 1 => s.error(RxError::from_error("E")), _ => {} }
+  });
+  #[allow(non_snake_case, unused_variables)]
+  let P = p;
+  let o = EXPR;
+  o.subscribe(move |x| l1.lock().unwrap().push(format!("N{}", x)), move |_| l2.lock().unwrap().push("E".to_string()), move || l3.lock().unwrap().push("C".to_string()));
+  let v = log.lock().unwrap().join(",");
+  v
+}
+
+#[test]
+fn sweep() {
+  let params: Vec<usize> = vec![PARAMS];
+  for p in params {
+    for len in 0..=4usize {
+      let mut idx = vec![0i64; len];
+      loop {
+        for end in 0..3u8 {
+          println!("ROW|{}|{:?}|{}|{}", p, idx, end, run(idx.clone(), end, p));
+        }
+        let mut k = 0;
+        while k < len { idx[k] += 1; if idx[k] < 3 { break; } idx[k] = 0; k += 1; }
+        if k == len { break; }
+      }
+    }
+  }
+}
+'''
+
+
+def _fmt(evs):
+    return ','.join('N%d' % e[1] if e[0] == 'N' else e[0] for e in evs)
+
+
+def verus_witness(unit, repo, scratch):
+    if unit not in REFS:
+        return None
+    expr, params, ref = REFS[unit]
+    d = os.path.join(scratch, 'w')
+    if os.path.exists(d):
+        shutil.rmtree(d)
+    shutil.copytree(repo, d, ignore=shutil.ignore_patterns('target', '.git'))
+    os.makedirs(os.path.join(d, 'tests'), exist_ok=True)
+    src = DRIVER.replace('EXPR', expr).replace('PARAMS', ', '.join(str(p) for p in params))
+    open(os.path.join(d, 'tests', 'verif_sweep.rs'), 'w').write(src)
+    env = dict(os.environ, CARGO_NET_OFFLINE='true', RUSTFLAGS='-Awarnings')
+    try:
+        p = subprocess.run(['cargo', 'test', '--offline', '--test', 'verif_sweep', '--', '--nocapture', '--test-threads', '1'],
+                           cwd=d, capture_output=True, text=True, timeout=600, env=env)
+    except subprocess.TimeoutExpired:
+        return {'witness': None, 'witness_search': 'native sweep timed out (the operator may not terminate on some input)'}
+    rows = 0
+    for line in p.stdout.split('\n'):
+        if not line.startswith('ROW|'):
+            continue
+        _, ps, xs, end, got = line.split('|', 4)
+        xs = json.loads(xs)
+        endc = 'CES'[int(end)]
+        want = ref(xs, endc, int(ps))
+        rows += 1
+        if want is None:
+            continue
+        if _fmt(want) != got.strip():
+            test = ('use another_rxrust::prelude::*;\n// witness found by the bounded native sweep: operator `%s`, parameter %s, source items %s, ending %s\n'
+                    '// delivered: [%s]   definition: [%s]\n' % (unit, ps, xs, {'C': 'complete', 'E': 'error', 'S': 'silent'}[endc], got.strip(), _fmt(want)))
+            return {'witness': {'operator': unit, 'expression': expr.replace('P', ps), 'source_items': xs, 'source_ending': endc,
+                                'delivered': got.strip(), 'definition_says': _fmt(want)},
+                    'witness_search': 'native sweep of the real operator: %d rows until the first disagreement' % rows,
+                    'witness_test_header': test}
+    return {'witness': None, 'witness_search': 'native sweep of the real operator over %d scripts (items {0,1,2}, length <= 4, 3 endings, parameters %s) found no disagreement with the executable definition' % (rows, params)}
 
 
 def find_witness(obl, repo, scratch):
+    try:
+        if obl.engine == 'verus' and obl.unit:
+            return verus_witness(obl.unit, repo, scratch)
+        if obl.engine == 'kani' and obl.fn:
+            import nativereplay
+            r = nativereplay.run(repo, scratch, obl.fn)
+            if r['reproduced']:
+                return {'witness': {'native_replay_of_harness': obl.fn, 'result': r['how']}, 'native_output': r['output'][-2500:],
+                        'kani_output': obl.extra.get('kani_out', '')[-2500:]}
+            return {'witness': None, 'native_replay': r['how'], 'kani_output': obl.extra.get('kani_out', '')[-2500:]}
+    except Exception as e:  # the search must never turn a violation into a crash
+        return {'witness': None, 'witness_search': 'search failed: %r' % e}
     return None
 
 
 def rerun(rec, repo):
-    print('replay: obligation %s - re-run `./check %s` to re-verify; no concrete input recorded' % (rec.get('failed_obligation'), rec.get('property')))
-    return 0
+    print('replay of obligation %s' % rec.get('failed_obligation'))
+    w = rec.get('witness')
+    if not w:
+        print('no concrete input recorded (no-failing-input-found); re-run ./check %s to re-verify the obligation' % rec.get('property'))
+        return 0
+    import tempfile
+    scratch = tempfile.mkdtemp(prefix='rxreplay-')
+    try:
+        if 'native_replay_of_harness' in w:
+            import nativereplay
+            r = nativereplay.run(repo, scratch, w['native_replay_of_harness'])
+            print(r['how'])
+            return 1 if r['reproduced'] else 0
+        r = verus_witness(w['operator'], repo, scratch)
+        print(json.dumps(r, indent=1)[:2000])
+        return 1 if r and r.get('witness') else 0
+    finally:
+        shutil.rmtree(scratch, ignore_errors=True)
